@@ -324,7 +324,7 @@ Inductive Reach : string -> Prop :=
 Hypothesis ENV : forall h, In h hs -> Reach (ckey h).
 
 Hypothesis GOV : forall h g, In h hs -> In g hs -> h_isdir h = false -> h_isdir g = true ->
-  ckey g = path_dir (ckey h) -> file_ok (Some (trim_suffix_char ch_slash (h_name g))) h.
+  ckey g = path_dir (ckey h) -> file_ok (Some (dir_trim (h_name g))) h.
 
 Lemma key_inj h g : In h hs -> In g hs -> ckey h = ckey g -> h = g.
 Proof. apply nodup_map_inj, ND. Qed.
@@ -431,7 +431,7 @@ Proof.
     assert (SUB : exists sub,
       match alookup c DC with Some (x :: xs) => sort_children f DC ALL (x :: xs) | _ => Ok [] end = Ok sub /\
       (forall x, In x sub <-> In x hs /\ covers (kids c hs) x) /\ NoDup sub /\
-      governed (Some (trim_suffix_char ch_slash (h_name h))) sub = true).
+      governed (Some (dir_trim (h_name h))) sub = true).
     { rewrite dc_lookup. destruct (kids c hs) as [|k0 ks] eqn:K.
       - exists []. split; [reflexivity|]. split; [|split; [constructor|reflexivity]].
         intro x. split; [intros []|]. intros (_ & c' & k & [] & _).
@@ -612,12 +612,12 @@ Lemma envelope_reach hs : sort_envelope hs -> forall h, In h hs -> Reach hs (cke
 Proof. intros E h I. eapply reachable_reach; [apply (se_nodot hs E h I)|apply (se_reach hs E h I)]. Qed.
 
 Lemma envelope_gov hs : sort_envelope hs -> forall h g, In h hs -> In g hs -> h_isdir h = false -> h_isdir g = true ->
-  ckey g = path_dir (ckey h) -> file_ok (Some (trim_suffix_char ch_slash (h_name g))) h.
+  ckey g = path_dir (ckey h) -> file_ok (Some (dir_trim (h_name g))) h.
 Proof.
-  intros E h g Ih Ig Dh Dg Ek. cbn [file_ok]. apply String.eqb_eq. apply join_dir_base.
+  intros E h g Ih Ig Dh Dg Ek. cbn [file_ok]. apply String.eqb_eq. apply join_dir_trim.
   - apply (se_base hs E h Ih Dh).
-  - intros H. apply (se_nodot hs E g Ig). rewrite H. reflexivity.
-  - intros H. apply (reach_not_root hs (ckey g) (envelope_reach hs E g Ig)). unfold ckey. rewrite H. reflexivity.
+  - exact (se_nodot hs E g Ig).
+  - exact (reach_not_root hs (ckey g) (envelope_reach hs E g Ig)).
   - exact Ek.
 Qed.
 
